@@ -141,4 +141,41 @@ def summary (n : Nat) (log : List LogEntry) : List (Int × Nat × Operation × N
 def stdoutSelection (st : State) : List Codes :=
   st.selected.filter fun p => !st.hiddenPrograms.contains p
 
+/-! ### The recommender as a whole: `Recommendations(db)`, `run_pipeline` × n, `get_markdown` -/
+
+/-- Several `run_pipeline` calls on ONE recommender (the filter state and the `result` log persist). -/
+def runsLogged (c : Ctx) (r : Relations) (st : State) (log : List LogEntry) :
+    List (List Command) → Except Err (State × List LogEntry)
+  | [] => .ok (st, log)
+  | cmds :: t =>
+    match runLogged c r st cmds with
+    | .error e => .error e
+    | .ok (st', l) => runsLogged c r st' (log ++ l) t
+
+structure Recommendation where
+  body : List (Bucket × List Section)
+  log : List LogEntry
+  final : State
+  assessed : List (Rat × Codes)
+
+inductive Outcome
+  | err (e : Err)          -- ValueError of a rejected predicate string
+  | keyError               -- a path that is no program
+  | ok (rep : Recommendation)
+
+/-- `run_pipeline` (n times), then the assessment of the final selection with the final knowledge,
+then the report built from the final hidden sets. -/
+def recommend (c : Ctx) (r : Relations) (strat : Strategy) (sloc : Codes → Nat) (sorting : Sorting)
+    (grouping : Bool) (runs : List (List Command)) : Outcome :=
+  match runsLogged c r (initState c.programs) [] runs with
+  | .error e => .err e
+  | .ok (st, log) =>
+    match assess strat c.programs st.knowledge st.selected with
+    | none => .keyError
+    | some assessed =>
+      match body ⟨strat, c.programs, sloc, st.knowledge, st.hiddenTaxa, st.hiddenPrograms, assessed, sorting,
+          grouping⟩ with
+      | none => .keyError
+      | some b => .ok ⟨b, log, st, assessed⟩
+
 end Paroxy.Report
